@@ -37,7 +37,8 @@ void run_command(tfel::system::ProcessManager& m, int tid, size_t opi, const std
   int verdict = -1; std::string msg;
   vsim::set_next_fate(f);
   vsim::event(E_EXEC_BEGIN, long(opi), tid); sample_abs();
-  try { m.execute("cmd"); verdict = V_OK; }
+  const bool with_output_file = op.size() > 5 && op[5] != 0;   // as tfel-check does: the command's output is redirected to a file
+  try { if (with_output_file) m.execute(std::string("."), std::string("cmd"), std::string(""), std::string("/dev/null"), std::map<std::string, std::string>{}); else m.execute("cmd"); verdict = V_OK; }
   catch (std::exception& e) { msg = e.what(); verdict = classify(msg); }
   vsim::event(E_EXEC_END, long(opi), verdict); sample_abs();
   int expected = f.kind == 2 ? V_EXEC_FAILED : f.kind == 1 ? V_SIGNAL : (f.value == 0 ? V_OK : V_EXIT_NONZERO);
@@ -78,7 +79,7 @@ struct H30 : hu::Harness {
       for (long k = 0; k < nc; ++k) {
         long w = r.range(0, 9), kind = 0, val = 0;
         if (w < 3) { kind = 0; val = 0; } else if (w < 6) { kind = 0; val = r.range(1, 5) * (r.chance(1, 8) ? 50 : 1); } else if (w < 9) { kind = 1; static const long sg[] = {9, 11, 15, 6, 2}; val = sg[r.range(0, 4)]; } else kind = 2;
-        p.ops.push_back({t, kind, val, r.chance(1, 3) ? 0 : r.range(0, 12), r.range(0, 2)});
+        p.ops.push_back({t, kind, val, r.chance(1, 3) ? 0 : r.range(0, 12), r.range(0, 2), r.chance(1, 2) ? 1 : 0});
       }
     }
     for (size_t i = p.ops.size(); i > 1; --i) { size_t j = size_t(r.range(0, long(i) - 1)); if (p.ops[i - 1][0] != p.ops[j][0]) std::swap(p.ops[i - 1], p.ops[j]); }
@@ -93,7 +94,7 @@ struct H30 : hu::Harness {
     std::string s = "threads=" + std::to_string(par(0, 1)) + " sigchld_target=" + (par(1, 0) ? "forking-thread-preferred(Linux)" : "any-eligible-thread(POSIX)") + " manager=" + (par(2, 0) ? "one-per-thread" : "one-per-command") + " cmds:";
     size_t n = 0;
     for (auto& o : p.ops) { if (o.size() < 5) continue; if (++n > 20) { s += " ..."; break; }
-      s += " t" + std::to_string(o[0]) + ":" + (o[1] == 2 ? std::string("execfail") : o[1] == 1 ? "sig" + std::to_string(o[2]) : "exit" + std::to_string(o[2])) + "@" + std::to_string(o[3]); }
+      s += " t" + std::to_string(o[0]) + ":" + (o[1] == 2 ? std::string("execfail") : o[1] == 1 ? "sig" + std::to_string(o[2]) : "exit" + std::to_string(o[2])) + "@" + std::to_string(o[3]) + ((o.size() > 5 && o[5]) ? ">file" : ""); }
     for (auto& f : p.faults) if (f.size() >= 3) s += " fault:stray-SIGCHLD@step" + std::to_string(f[1]);
     return s;
   }
